@@ -92,6 +92,11 @@ def scenarios(tier: str) -> List[Dict[str, Any]]:
                     for how in ("fin", "rst"):
                         out.append(dict(tc=tc, grace=grace, flip=flip, pre=pre, leave=[ev_send("D", fb[:off]), [how, "D"]] if off else [[how, "D"]],
                                         orders=False, leavers=[("D", pos)], label=f"{pos}/{name}[:{off}]/{how}"))
+                        if name == "SUBSCRIBE" and 0 < off < 48 and pos in ("connected", "subscribed", "suball"):
+                            # the manager's (shared) header buffer holds a zero-length frame of somebody else when the cut header arrives
+                            sig0 = [ev_send("P", fr(tc, T2, b"", src_mod_id=IDS["P"])), ["settle"]]
+                            out.append(dict(tc=tc, grace=grace, flip=flip, pre=pre + sig0, leave=[ev_send("D", fb[:off]), [how, "D"]],
+                                            orders=False, leavers=[("D", pos)], label=f"{pos}/after-signal/{name}[:{off}]/{how}"))
             # write-side discovery: D dead, P publishes in the same round
             if pos in ("subscribed", "suball", "logger"):
                 for how in ("fin", "rst"):
